@@ -757,6 +757,23 @@ spec fn true_hashes(w: World, b: Blob, v: FileStateVec) -> bool {
     &&& v.infos@.len() == b.file_infos@.len()
     &&& forall|i: int| 0 <= i < b.file_infos@.len() ==> file_tk(w, b.file_infos@[i].path@, (#[trigger] v.infos@[i]).ticket)
 }
+// ---- C01: what a from-scratch build would produce ----
+// the hash of what the rule's (deterministic) command writes at `path` when its declared sources hash together to `st`
+uninterp spec fn out_hash(script: Seq<Seq<char>>, st: Seq<u8>, path: Seq<char>) -> Seq<u8>;
+// HYPOTHESIS of C01 ("commands are deterministic functions of their declared sources"), about one execution from world w0:
+// if every target is absent or already holds that output, then afterwards every target that exists holds that output
+spec fn cmd_det(script: Seq<Seq<char>>, st: Seq<u8>, paths: Seq<Seq<char>>, w0: World) -> bool {
+    (forall|k: int| 0 <= k < paths.len() ==> !w0.files.contains_key(#[trigger] paths[k]) || sha256(w0.files[paths[k]].content) == out_hash(script, st, paths[k]))
+    ==> (forall|k: int| 0 <= k < paths.len() ==> (cmd_files(script, w0).contains_key(#[trigger] paths[k]) ==> sha256(cmd_files(script, w0)[paths[k]].content) == out_hash(script, st, paths[k])))
+}
+// every target exists and holds the from-scratch output for sources `st`
+spec fn outputs_ok(w: World, paths: Seq<Seq<char>>, script: Seq<Seq<char>>, st: Seq<u8>) -> bool {
+    forall|k: int| 0 <= k < paths.len() ==> w.files.contains_key(#[trigger] paths[k]) && sha256(w.files[paths[k]].content) == out_hash(script, st, paths[k])
+}
+// HIST_TRUE: every remembered entry is the from-scratch output for its sources
+spec fn hist_true(h: Map<Ticket, FileStateVec>, script: Seq<Seq<char>>, paths: Seq<Seq<char>>) -> bool {
+    forall|st: Ticket, k: int| #![trigger h[st].infos@[k]] h.contains_key(st) && 0 <= k < paths.len() ==> h[st].infos@[k].ticket.bytes() == out_hash(script, st.bytes(), paths[k])
+}
 spec fn path_strs(paths: Seq<Seq<char>>, idx: Seq<usize>) -> Seq<Seq<char>> { Seq::new(idx.len(), |k: int| paths[idx[k] as int]) }
 
 //@ extract work.rs fn rebuild_node
@@ -780,6 +797,10 @@ spec fn path_strs(paths: Seq<Seq<char>>, idx: Seq<usize>) -> Seq<Seq<char>> { Se
                 && h.map().contains_key(sources_ticket) && h.map()[sources_ticket].tickets() =~= r.file_state_vec.tickets()
                 && (forall|k: Ticket| #![trigger h.map()[k]] #![trigger h.map().contains_key(k)] rule_history.map().contains_key(k) ==> h.map().contains_key(k) && h.map()[k] == rule_history.map()[k])
                 && (forall|k: Ticket| #![trigger h.map().contains_key(k)] h.map().contains_key(k) ==> k == sources_ticket || rule_history.map().contains_key(k)),
+        // C01: under the determinism hypothesis and a true history, the outputs are the from-scratch outputs and the history stays true
+        (cmd_det(to_script(strs(command@)), sources_ticket.bytes(), blob.paths(), *old(w)) && hist_true(rule_history.map(), to_script(strs(command@)), blob.paths()) && res is Ok)     //# O-D-rebuild-outputs [C01]
+            ==> outputs_ok(*final(w), blob.paths(), to_script(strs(command@)), sources_ticket.bytes())
+                && (res matches Ok(r) && r.rule_history matches Some(h) && hist_true(h.map(), to_script(strs(command@)), blob.paths())),
         // a contradiction names exactly the targets whose new hash differs from the recorded one; the record is kept (no history is returned)
         res matches Err(WorkError::Contradiction(ps)) ==> rule_history.map().contains_key(sources_ticket)    //# O-D-contradiction-paths [C17]
             && exists|v: FileStateVec| true_hashes(*final(w), blob, v) &&
@@ -798,6 +819,29 @@ spec fn path_strs(paths: Seq<Seq<char>>, idx: Seq<usize>) -> Seq<Seq<char>> { Se
             assert(blob.paths()[i] == blob0.paths()[i]);
         }
         assert(true_hashes(*w, blob0, fsv));
+    }
+//@ hint before 1/1 /Ok\(\s*WorkResult\s*\{\s*file_state_vec : file_state_vec,\s*blob : blob,\s*work_option : WorkOption::CommandExecuted/
+    proof {
+        let script = to_script(strs(command@)); let st = sources_ticket; let paths = blob0.paths();
+        if cmd_det(script, st.bytes(), paths, *old(w)) && hist_true(h0, script, paths) {
+            assert forall|k: int| 0 <= k < paths.len() implies !old(w).files.contains_key(#[trigger] paths[k]) || sha256(old(w).files[paths[k]].content) == out_hash(script, st.bytes(), paths[k]) by {
+                assert(paths[k] == blob0.file_infos@[k].path@);
+                assert(displaced_or_recorded(*old(w), blob0.file_infos@[k].path@, h0, st, k));
+                if old(w).files.contains_key(paths[k]) { assert(h0[st].infos@[k].ticket.bytes() == out_hash(script, st.bytes(), paths[k])); }
+            }
+            assert forall|k: int| 0 <= k < paths.len() implies w.files.contains_key(#[trigger] paths[k]) && sha256(w.files[paths[k]].content) == out_hash(script, st.bytes(), paths[k]) by {
+                assert(paths[k] == blob0.file_infos@[k].path@);
+                assert(file_tk(*w, blob0.file_infos@[k].path@, fsv.infos@[k].ticket));
+            }
+            let h1 = rule_history.map();
+            assert forall|t: Ticket, k: int| #![trigger h1[t].infos@[k]] h1.contains_key(t) && 0 <= k < paths.len() implies h1[t].infos@[k].ticket.bytes() == out_hash(script, t.bytes(), paths[k]) by {
+                if t == st {
+                    assert(h1[st].tickets()[k] == fsv.tickets()[k]);
+                    assert(paths[k] == blob0.file_infos@[k].path@);
+                    assert(file_tk(*w, blob0.file_infos@[k].path@, fsv.infos@[k].ticket));
+                } else { assert(h0.contains_key(t) && h1[t] == h0[t]); }
+            }
+        }
     }
 //@ hint before 1/1 /return Err\(WorkError::Contradiction\(contradicting_target_paths\)\);/
                     proof {
@@ -881,6 +925,12 @@ spec fn hrn_trace(a: World, b: World, script: Seq<Seq<char>>, paths: Seq<Seq<cha
             && (forall|k: Ticket| #![trigger h.map()[k]] #![trigger h.map().contains_key(k)] rule_ext.rule_history.map().contains_key(k) ==> h.map().contains_key(k) && h.map()[k] == rule_ext.rule_history.map()[k])
             && (forall|k: Ticket| #![trigger h.map().contains_key(k)] h.map().contains_key(k) ==> k == rule_ext.sources_ticket || rule_ext.rule_history.map().contains_key(k))
             && (r.work_option is CommandExecuted ==> h.map().contains_key(rule_ext.sources_ticket) && h.map()[rule_ext.sources_ticket].tickets() =~= r.file_state_vec.tickets()),
+        // C01: with deterministic commands and a true history, success means every target holds the from-scratch output for the
+        // sources' hash, and the history handed back is still true
+        ((forall|m: World| #[trigger] cmd_det(to_script(strs(rule_ext.command@)), rule_ext.sources_ticket.bytes(), info.blob.paths(), m))                        //# O-D-hrn-outputs [C01]
+            && hist_true(rule_ext.rule_history.map(), to_script(strs(rule_ext.command@)), info.blob.paths()) && res is Ok)
+            ==> outputs_ok(*final(w), info.blob.paths(), to_script(strs(rule_ext.command@)), rule_ext.sources_ticket.bytes())
+                && (res matches Ok(r) && r.rule_history matches Some(h) && hist_true(h.map(), to_script(strs(rule_ext.command@)), info.blob.paths())),           //# O-D-hist-true [C01]
         // C02: remembered + every target correct or uniquely recoverable  ==>  no command
         (res is Ok && rule_ext.rule_history.map().contains_key(rule_ext.sources_ticket)                                 //# O-D-no-exec [C02]
             && forall|k: int| 0 <= k < info.blob.file_infos@.len() ==> {
@@ -893,6 +943,19 @@ spec fn hrn_trace(a: World, b: World, script: Seq<Seq<char>>, paths: Seq<Seq<cha
                 strs(ps@) =~= path_strs(info.blob.paths(), diff_indices(rule_ext.rule_history.map()[rule_ext.sources_ticket].tickets(), #[trigger] v.tickets(), info.blob.file_infos@.len() as int)),
         res matches Err(WorkError::TargetFileNotGenerated(p)) ==>                                       //# O-D-hrn-not-generated [C04]
             exists|i: int| 0 <= i < info.blob.file_infos@.len() && #[trigger] info.blob.file_infos@[i].path@ == p@,
+//@ hint before 1/1 /Ok\(\s*WorkResult\s*\{\s*file_state_vec : file_state_vec,\s*blob : info\.blob,/
+                proof {
+                    let script = to_script(strs(rule_ext.command@)); let st = rule_ext.sources_ticket; let paths = info.blob.paths(); let h0 = rule_ext.rule_history.map();
+                    if hist_true(h0, script, paths) {
+                        assert forall|k: int| 0 <= k < paths.len() implies w.files.contains_key(#[trigger] paths[k]) && sha256(w.files[paths[k]].content) == out_hash(script, st.bytes(), paths[k]) by {
+                            assert(paths[k] == info.blob.file_infos@[k].path@);
+                            assert(h0.contains_key(st));
+                            assert(res_ok(*old(w), *w, info.blob.file_infos@[k].path@, h0[st].infos@[k].ticket.bytes(), resolutions@[k]));
+                            assert(!(resolutions@[k] is NeedsRebuild));
+                            assert(h0[st].infos@[k].ticket.bytes() == out_hash(script, st.bytes(), paths[k]));
+                        }
+                    }
+                }
 //@ hint before 1/1 /if needs_rebuild\(&resolutions\)/
             let ghost w_mid = *w;
             proof {
